@@ -121,7 +121,21 @@ def x_preempt_overtime(spec):
     return hit
 
 
+def x_ps_priorities(spec):
+    """F25: a capacity-limited processor-sharing node picks the next customer to admit by its index in the
+    priority-flattened list, which with several priority classes can be a customer already in service (re-sampled) while
+    the waiting one is skipped.  Excluded by giving such PS nodes unlimited sharing capacity."""
+    hit = False
+    if len(set(c.get("priority", 0) for c in spec["classes"])) > 1:
+        for nd in spec["nodes"]:
+            if nd.get("ps") and nd["servers"]["kind"] != "inf":
+                nd["servers"] = {"kind": "inf"}
+                hit = True
+    return hit
+
+
 EXCLUSIONS = {
+    "ps_priorities": x_ps_priorities,
     "preempt_overtime": x_preempt_overtime,
     "sched_reroute_self": x_sched_reroute_self,
     "jockey_capacity": x_jockey_capacity,
